@@ -21,7 +21,7 @@ CHECKS['C16'] = dict(cat='proof', ref='DESIGN.md §7 C16, Appendix A.1, notes/C1
         'Myers furthest-reaching + overshoot lemmas, index bounds, no fuel exhaustion) and applying it per LSP 3.17 gives exactly `after`, '
         'edits ordered, non-overlapping, inside the document (compute_edits_sound). The model is compared edit list for edit list with the real '
         'ComputeEdits (overlay test) on the exhaustive <=4-line domain over {a,b,""} (40,401 distinct pairs, thorough) and random/real-policy/'
-        'CRLF/CR/unicode/malformed pairs; the real edits are also applied independently in Go and by the Coq lsp_apply.',
+        'CRLF/CR/unicode/malformed pairs and a large-distance stream; the real edits are also applied independently in Go and by the Coq lsp_apply. The server-level producers of edits (textDocument/formatting in all branches, regal.fix.* commands, the template worker) are modelled (Model/FormatFlow.v: formatting_reproduces_intended) and driven on a real LanguageServer over JSON-RPC: edits applied to the client text must give the text the server holds.',
    technique='Coq proof (Myers diff invariants F1-F3,B1,O1,E1,T1,T2) over a Gallina model of diff.go + differential correspondence via go test -overlay',
    note=TB + ' Editor-specific application and UTF-16 columns are not modelled (all characters are 0). Finding fixed in /repo 778ab02 (lone CR line ends).')
 
@@ -39,7 +39,7 @@ CHECKS['C10'] = dict(cat='proof', ref='DESIGN.md §7 C10, notes/C10.md',
    text='Kernel-checked for ALL reports: exit status is 1 iff linting failed, else 3/2/0 exactly as stated for both fail levels; each format (pretty/festive, github at byte level incl. '
         'workflow-command escaping round trip, sarif incl. notices, junit, json) carries every violation exactly once with file, position, rule and level under stated hypotheses whose '
         'necessity is shown by _refuted witnesses; JSON decode(encode r) = r modulo json:"-" fields; compact carries only file and position (open finding). Generated reports go '
-        'through the 7 real reporters and are read back by independent parsers, compared inside Coq with the model; exit codes and stdout through the real binary on 6-7 workspaces x 2 fail levels x 7 formats.',
+        'through the 7 real reporters and are read back by independent parsers, compared inside Coq with the model; exit codes and stdout through the real binary on 6-7 workspaces x 2 fail levels x 7 formats; the output channel is covered too (--output-file over existing longer/shorter/garbage content equals the stdout bytes; failing devices give exit 1: c10_exit_code_delivery_failed, c10_output_file_is_this_runs_rendering).',
    technique='Coq proof over executable models of cmd/lint.go, main.go, pkg/reporter, pkg/report + differential correspondence (real reporters, real binary, independent output parsers)',
    note=TB + ' Output parsers of the harness are trusted glue. Four defects repaired in /repo (669b4f4 JUnit n^2, 37fa06a XML control chars, ef39a79 UTF-8 cut, 6b7e728 GitHub escaping); '
         'open finding: compact omits rule and level.')
